@@ -1116,11 +1116,27 @@ def show_conds(conds):
 # ------------------------------------------------------------------ Guile lexical model over parts
 def scan_scheme(parts, in_string=False, depth=0):
     """Walk constant text with Guile's string/paren lexical rules. Returns dict(depth_end, min_depth, in_string_end,
-    holes=[(hole, in_string, depth_at)], bad_escapes=[...], subs=[(sub, in_string, depth)])."""
-    holes, subs, bad = [], [], []
+    holes=[(hole, in_string, depth_at, after_backslash)], hole_ctx=[(head of the enclosing form, index of the argument the
+    hole is in)] parallel to holes, ctx_end (the same for the end of the text), bad_escapes=[...], subs=[..])."""
+    holes, subs, bad, hctx = [], [], [], []
     mind = depth
     esc = False
-    i_part = 0
+    forms = [{"head": None, "nargs": 0}]  # enclosing forms, innermost last (the first entry is the top level)
+    atom = [""]
+
+    def end_atom():
+        if atom[0]:
+            f = forms[-1]
+            if f["head"] is None:
+                f["head"] = atom[0]
+            else:
+                f["nargs"] += 1
+            atom[0] = ""
+
+    def ctx():
+        f = forms[-1]
+        return (f["head"], f["nargs"])
+
     for p in flat_parts(parts):
         if p[0] == "c":
             text = p[1]
@@ -1138,36 +1154,67 @@ def scan_scheme(parts, in_string=False, depth=0):
                         in_string = False
                 else:
                     if ch == '"':
+                        end_atom()
                         in_string = True
+                        f = forms[-1]
+                        if f["head"] is None:
+                            f["head"] = "<string>"
+                        else:
+                            f["nargs"] += 1
                     elif ch == "#" and text[i + 1 : i + 2] == "\\":
                         # character literal #\x.. or #\c : skip the char after #\
+                        atom[0] += "#\\"
                         i += 2
                         if i < len(text):
-                            # consume hex name / single char
+                            atom[0] += text[i]
                             if text[i] == "x":
                                 while i + 1 < len(text) and text[i + 1] in "0123456789abcdefABCDEF":
                                     i += 1
-                        else:
-                            # the character itself is the next part (a hole): mark
-                            pass
                     elif ch == ";":
-                        # comment to end of line
+                        end_atom()
                         while i < len(text) and text[i] != "\n":
                             i += 1
                     elif ch == "(":
+                        end_atom()
+                        f = forms[-1]
+                        if f["head"] is None:
+                            f["head"] = "<form>"
+                        else:
+                            f["nargs"] += 1
+                        forms.append({"head": None, "nargs": 0})
                         depth += 1
                     elif ch == ")":
+                        end_atom()
+                        if len(forms) > 1:
+                            forms.pop()
                         depth -= 1
                         mind = min(mind, depth)
+                    elif ch.isspace():
+                        end_atom()
+                    else:
+                        atom[0] += ch
                 i += 1
         elif p[0] == "h":
             holes.append((p[1], in_string, depth, esc))
+            hctx.append(ctx())
+            if not in_string:
+                atom[0] += "{}"
             esc = False
         elif p[0] == "sub":
             subs.append((p[1], in_string, depth))
+            if not in_string:
+                end_atom()
+                f = forms[-1]
+                if f["head"] is None:
+                    f["head"] = "<sub>"
+                else:
+                    f["nargs"] += 1
         elif p[0] == "join":
             holes.append(({"v": "join", "list": p[1], "sep": p[2], "src": "join"}, in_string, depth, esc))
-    return dict(depth_end=depth, min_depth=mind, in_string_end=in_string, holes=holes, subs=subs, bad_escapes=bad, dangling_escape=esc)
+            hctx.append(ctx())
+            if not in_string:
+                atom[0] += "{}"
+    return dict(depth_end=depth, min_depth=mind, in_string_end=in_string, holes=holes, hole_ctx=hctx, ctx_end=ctx(), subs=subs, bad_escapes=bad, dangling_escape=esc)
 
 
 # ------------------------------------------------------------------ skeleton (CompiledExpression::scheme)
